@@ -669,7 +669,7 @@ def _check_threads_pairs(res, B, pairs, mk, threads, tracked, bound, max_runs, s
         import time as _time
         t0_ = _time.time()
         for choices, results, npts, capped in threads.explore([fa, fb], tracked, bound, max_runs=max_runs):
-            if capped or _time.time() - t0_ > 90.0:
+            if capped or (n > 0 and _time.time() - t0_ > 90.0):
                 # a cap (number of schedules or wall time for this pair) is reported, the pair is then not exhaustively explored
                 res.counters["thread_schedules_capped"] += 1
                 break
